@@ -468,6 +468,9 @@ class ExpMat:
     def sx_getattr(self, ex, attr, node):
         if attr == "T":
             return KeyMat(self.D, self.n, lambda c: self.row(c), "view")
+        if attr == "size":
+            from .codecmodel import prod2
+            return prod2(self.n, self.D)
         if attr == "shape":
             return (self.n, self.D)
         if attr == "ndim":
@@ -536,7 +539,25 @@ class ExpMat:
             return
         raise U("exponent matrix item assignment", node)
 
+    def sx_binop(self, ex, op, other, node, reflected):
+        if op in ("Add", "Sub") and isinstance(other, int) and not isinstance(other, bool) and not reflected:
+            from .codecmodel import wrap32
+            k = other if op == "Add" else -other
+            ctx = ex.ctx
+            isu = simplify_bool(self.dtype == dt_uint32) is True
+            rf = ctx.func("rowshift", I, Mono)
+            old = self._row
+            t, d = z3.Int(ctx.fresh("t")), z3.Int(ctx.fresh("d"))
+            val = (lambda x: wrap32(x + k)) if isu else (lambda x: x + k)
+            ctx.assume(z3.ForAll([t, d], expo(rf(t), d) == val(expo(old(t), d)), patterns=[expo(rf(t), d), expo(old(t), d)]))
+            return ExpMat(self.n, self.D, lambda t: rf(t), Region("fresh"), self.dtype)
+        return NotImplemented
+
     def sx_method(self, ex, attr, args, kw, node):
+        if attr == "flatten" and not args and not kw:
+            from .codecmodel import FlatCodes
+            rows = self._row
+            return FlatCodes(self.n, self.D, lambda t, d: expo(rows(t), d))
         if attr == "copy":
             return ExpMat(self.n, self.D, self._row, Region("fresh"), self.dtype)
         if attr == "tolist":
